@@ -28,7 +28,12 @@
 (***************************************************************************)
 EXTENDS Naturals, Sequences, FiniteSets, TLC
 
-CONSTANTS T, Loads, DecPad, Gate, NotifyReady, NotifyUpdate, WaitLoop, ReadyTest, Spurious
+CONSTANTS T, Loads, DecPad, Gate, NotifyReady, NotifyUpdate, WaitLoop, ReadyTest, Spurious, Unbounded
+\* Unbounded = TRUE: the input is ANY sequence of full chunks followed by a final one (Loads is
+\* ignored; every load chooses its kind and 1..MaxBlocks blocks nondeterministically) and everything
+\* that grows with the input (block identities, output, stream counters) is abstracted away, so the
+\* state space is finite and TLC decides the control properties for inputs of EVERY length.
+MaxBlocks == 2
 \* DecPad = 0 when encrypting; when decrypting the value of the last byte of the final
 \* buffer (the number of bytes stripped by the final export)
 
@@ -127,8 +132,8 @@ WGetEntry(i) == /\ pcw[i] = "ge"
 
 \* runcry on the block handed out by get_entry
 WCry(i) == /\ pcw[i] = "cry"
-           /\ buf' = [buf EXCEPT ![i].data[cur[i]] = [k |-> @.k, cnt |-> @.cnt + 1, s |-> i, q |-> hist[i]]]
-           /\ hist' = [hist EXCEPT ![i] = @ + 1]
+           /\ buf' = [buf EXCEPT ![i].data[cur[i]] = [k |-> @.k, cnt |-> @.cnt + 1, s |-> i, q |-> IF Unbounded THEN 0 ELSE hist[i]]]
+           /\ hist' = IF Unbounded THEN hist ELSE [hist EXCEPT ![i] = @ + 1]
            /\ pcw' = [pcw EXCEPT ![i] = "ge"]
            /\ UNCHANGED << st, mtx, cvR, cvU, turn, over, live, nload, lstate, out, outlen, pcio, cur, born, nj >>
 
@@ -186,7 +191,8 @@ IOBegin == /\ pcio = "bu"
 \* export_buffer between its two points: the bytes leave
 IOExport == /\ pcio = "ex0"
             /\ LET b == buf[turn] IN
-               IF b.final
+               IF Unbounded THEN out' = out /\ outlen' = outlen
+               ELSE IF b.final
                THEN /\ out' = out \o SubSeq(b.data, 1, b.now)
                     /\ outlen' = outlen + 16 * b.now - DecPad
                ELSE /\ out' = out \o b.data /\ outlen' = outlen + 16 * b.total
@@ -195,7 +201,12 @@ IOExport == /\ pcio = "ex0"
 IOExportEnd == /\ pcio = "ex1" /\ pcio' = AfterExport
                /\ UNCHANGED << st, mtx, cvR, cvU, buf, turn, over, live, nload, lstate, out, outlen, hist, pcw, cur, born, nj >>
 \* load_buffer between its two points: fread fills the buffer and the cursor fields
-IOLoad == /\ pcio = "ld0"
+AbsData(nb) == [b \in 1..nb |-> [k |-> 0, cnt |-> 0, s |-> 99, q |-> 99]]
+IOLoadAbs(kind, nb) == /\ pcio = "ld0" /\ Unbounded
+                       /\ buf' = [buf EXCEPT ![turn] = [total |-> nb, now |-> 0, final |-> (kind = "FINAL") \/ @.final, data |-> AbsData(nb)]]
+                       /\ lstate' = kind /\ nload' = nload /\ pcio' = "ld1"
+                       /\ UNCHANGED << st, mtx, cvR, cvU, turn, over, live, out, outlen, hist, pcw, cur, born, nj >>
+IOLoad == /\ pcio = "ld0" /\ ~Unbounded
           /\ IF nload <= NLoads
              THEN /\ buf' = [buf EXCEPT ![turn] = [total |-> Loads[nload][2], now |-> 0,
                                                     final |-> (Loads[nload][1] = "FINAL") \/ @.final,
@@ -229,6 +240,7 @@ IOJoin == /\ pcio = "join" /\ pcw[nj] = "done"
           /\ pcio' = IF nj + 1 = T THEN "done" ELSE "join"
           /\ UNCHANGED << st, mtx, cvR, cvU, buf, turn, over, live, nload, lstate, out, outlen, hist, pcw, cur, born >>
 IOThread == IOSpawn \/ IOLock \/ IOWaitTest \/ IOEnqueue \/ IOWake \/ IOBegin \/ IOExport \/ IOExportEnd \/ IOLoad \/ IOLoadEnd
+            \/ (\E kind \in {"FULL", "FINAL"}, nb \in 1..MaxBlocks : IOLoadAbs(kind, nb))
             \/ IOSetReady \/ IOTurn \/ IOJoin
 
 Done == pcio = "done" /\ \A i \in Bufs : pcw[i] = "done"
@@ -238,6 +250,8 @@ Spec == Init /\ [][Next]_vars
 \* strong fairness per thread: a lock acquisition is only intermittently enabled while a
 \* neighbour spins through spurious wake-ups
 FairSpec == Spec /\ SF_vars(IOThread) /\ \A i \in Bufs : SF_vars(Worker(i))
+\* unbounded input: it does end (some load is eventually the final one)
+UFairSpec == FairSpec /\ SF_vars(\E nb \in 1..MaxBlocks : IOLoadAbs("FINAL", nb))
 
 \* ---- properties ------------------------------------------------------------------
 TypeOK == /\ st \in [Bufs -> {"EMPTY", "UPDATING", "READY", "INV"}]
